@@ -3,6 +3,7 @@ import QR.Proofs.SourceTieC06
 import QR.Proofs.Pinned
 import QR.Proofs.SourceTieC20
 import QR.Proofs.SourceTieA5
+import QR.Proofs.SourceTieT2
 /-
 C06 - the data codewords of every symbol form a conformant ISO bit stream.
 Model side: `Model.dataBits` mirrors util.create_data (headers through BitBuffer.put, QRData.write, terminator, bit padding,
@@ -123,6 +124,68 @@ theorem C06_source_qrdata_len_src (n : Nat) : qrdata_len n = n :=
   QR.SourceTieA.qrdata_len_src n
 
 end SourceTieT2
+
+
+/-! ### Source tie, part 2 (T2 plugins `tools/t2_fragments/`): (second plugin round, `frag_c.py`) the hand-written Model equals the definitions translated from
+    /repo's current Python AST (`QR.Gen.Code`, regenerated on every run). Restated verbatim from `QR/Proofs/SourceTie*.lean`. -/
+section SourceTieT2b
+open QR.Model QR.Gen QR.Gen.Code QR.SourceTieT
+
+theorem C06_source_bbInit_src : bb_init = bbRep [] :=
+  QR.SourceTieT.bbInit_src
+
+theorem C06_source_bbLen_src (bits : List Bool) : bb_len (bbRep bits).1 (bbRep bits).2 = bits.length :=
+  QR.SourceTieT.bbLen_src bits
+
+/-- **BitBuffer.put_bit**: on the object that represents the bit list `bits`, `put_bit(b)` never raises and yields the object
+    that represents `bits ++ [b]` (`buffer` = the Model's `packBytes`, `length` = the number of bits). -/
+theorem C06_source_put_bit_src {ε : Type} (e : ε) (bits : List Bool) (b : Bool) :
+    bb_put_bit e (bbRep bits).1 (bbRep bits).2 b = .ok (bbRep (bits ++ [b])) :=
+  QR.SourceTieT.put_bit_src e bits b
+
+/-- **BitBuffer.put** on the translated `put_bit`: the byte list / length pair after `put(num, length)` is the Model's
+    packing of `bits ++ bitsBE num length`; no exception. -/
+theorem C06_source_put_src (bits : List Bool) (num length : Nat) :
+    bb_put (fun (s : List Nat × Nat) b => bb_put_bit Err.indexError s.1 s.2 b) (bbRep bits) num length
+      = .ok (bbRep (bits ++ bitsBE num length)) :=
+  QR.SourceTieT.put_src bits num length
+
+/-- **BitBuffer.get**: on the object representing `bits`, `get(index)` returns `bits[index]` for every index below the length
+    (the Model has no `get`: it keeps the bit list itself). `math.floor(index / 8)` is read as floor division. -/
+theorem C06_source_get_src {ε : Type} (e : ε) (bits : List Bool) (index : Nat) (h : index < bits.length) :
+    bb_get e (bbRep bits).1 (bbRep bits).2 index = .ok bits[index] :=
+  QR.SourceTieT.get_src e bits index h
+
+/-- the module-level constants read by `write` -/
+theorem C06_source_write_consts_src : qw_MODE_NUMBER = Gen.MODE_NUMBER ∧ qw_MODE_ALPHA_NUM = Gen.MODE_ALPHA_NUM ∧
+    qw_MODE_8BIT_BYTE = Gen.MODE_8BIT_BYTE ∧ qw_ALPHA_NUM = Gen.ALPHA_NUM :=
+  QR.SourceTieT.write_consts_src
+
+/-- `NUMBER_LENGTH[k]` on the dict literal of the source = the Model's lookup in the (sorted) generated table, KeyError included -/
+theorem C06_source_number_length_src (k : Nat) : qw_lookup Err.keyError qw_NUMBER_LENGTH k = dictGet Gen.NUMBER_LENGTH k :=
+  QR.SourceTieT.number_length_src k
+
+/-- `ALPHA_NUM.find(c)` for an int `c`, "not found" (-1 in Python) being the Model's rejection -/
+theorem C06_source_alphaFind_src (c : Nat) : qw_find_in Err.other qw_ALPHA_NUM c = alphaFind c :=
+  QR.SourceTieT.alphaFind_src c
+
+/-- **QRData.write** on the Model's own buffer (the bit list): `write` appends `segWrite s` -/
+theorem C06_source_segWrite_src (find_bytes : List Nat → R Nat) (hfb : ∀ a, find_bytes [a] = alphaFind a) (s : Seg) (pre : List Bool) :
+    qw_write Err.keyError Err.indexError Err.other intOfDigits find_bytes (fun bits n l => .ok (bits ++ bitsBE n l))
+        s.mode s.data pre
+      = (segWrite s).map fun bits => pre ++ bits :=
+  QR.SourceTieT.segWrite_src find_bytes hfb s pre
+
+/-- **QRData.write over the translated BitBuffer**: with `buffer.put` = the translated `put` over the translated `put_bit`,
+    the Python object `(buffer.buffer, buffer.length)` after `write` is the Model's packing of `pre ++ segWrite s`. -/
+theorem C06_source_segWrite_bytes_src (find_bytes : List Nat → R Nat) (hfb : ∀ a, find_bytes [a] = alphaFind a) (s : Seg) (pre : List Bool) :
+    qw_write Err.keyError Err.indexError Err.other intOfDigits find_bytes
+        (fun self n l => bb_put (fun (st : List Nat × Nat) b => bb_put_bit Err.indexError st.1 st.2 b) self n l)
+        s.mode s.data (bbRep pre)
+      = (segWrite s).map fun bits => bbRep (pre ++ bits) :=
+  QR.SourceTieT.segWrite_bytes_src find_bytes hfb s pre
+
+end SourceTieT2b
 
 /-- the Python functions this property's model mirrors have, in /repo's current working tree, exactly the normalised
     ASTs the model was written and validated against (fingerprints regenerated by T1 on every run) -/
